@@ -137,6 +137,16 @@ def run(tier):
             except (fold.Diverged, fold.Unsupported) as ex:
                 bad.append("as_hex(%r): %s" % (chr(cp), ex))
     rep.check(not bad, "hex-digit-value", "as_hex/is_hex", "is_hex/as_hex are not the hexadecimal digit predicate/value", detail=bad[:10])
+    # content characters are passed through, breaks and the end-of-input padding never are: every cursor character pushed into text
+    # excludes LF, CR and NUL (E1 pass B)
+    from . import classdom
+    for B in ((16,) if tier == "quick" else (8, 16, 128)):
+        EB = classdom.run(F, B)
+        classdom.contract_sites(rep, F, EB, B)
+        forbid = EB.BRK | EB.A.mask([0])
+        n = classdom.cursor_pushes(rep, F, EB, B, "content-push-class", forbid, "only content characters may be copied from the input into a scalar")
+        rep.extra.setdefault("class_pass", {})[str(B)] = {"contexts": EB.contexts, "cursor_push_sites": n}
+        rep.floor("cursor-character push sites (B=%d)" % B, n, 8)
     rep.extra["escape_table"] = {("\\" + (chr(k) if k > 32 else "x%02x" % k)): "U+%04X" % v for k, v in sorted(named.items())}
     rep.extra["hex_lengths"] = {"\\" + chr(k): v for k, v in sorted(hexlen.items())}
     return rep
